@@ -3,6 +3,7 @@
   Property theorems only (structure of the generated file tree, `Model/Matlab/MFiles.lean`, `Cpp.lean`).
 -/
 import WrapModel.Model.Matlab.Cpp
+import WrapModel.Lemmas.GroupLemmas
 
 namespace WrapModel.Props.C10
 open WrapModel WrapModel.Inst WrapModel.Matlab
@@ -81,6 +82,22 @@ theorem C10_one_mex_source (cfg : MCfg) (im : List IDecl) (files : List (String 
             exact hn.1 (List.mem_map.2 ⟨g, hg, by rw [this, hf]⟩)
           simp [this]
         · exact ih hn.2
+
+/-- ONE file per free function name, ONE method block per method name, holding every overload.  `_group_methods`
+    (used for free functions in declaration order, for methods and static methods after sorting by name) returns one
+    group per distinct name, in first-occurrence order; the group of a name holds the default-expanded overloads of ALL
+    declarations of that name — whether or not they are declared next to each other — in declaration order; and it
+    succeeds only if every declaration's defaults are trailing. -/
+theorem C10_overloads_grouped_by_name {α : Type} (name : α → String) (args : α → List Arg) (ms : List α)
+    (gs : List (String × List (Ovl α))) (h : groupBy name args ms = .ok gs) :
+    gs.map (·.1) = (ms.map name).eraseDups ∧ (gs.map (·.1)).Nodup ∧
+    (∀ m ∈ ms, expandDefaults m (args m) = .ok (ovlsOf args m)) ∧
+    ∀ n ∈ ms.map name, gs.lookup n = some ((ms.filter fun m => name m == n).flatMap (ovlsOf args)) :=
+  groupBy_spec name args ms gs h
+
+/-- non-vacuity: `f`, `g`, `f` — two groups, the second `f` joins the first -/
+example : (groupBy (α := String × Nat) (·.1) (fun _ => []) [("f", 1), ("g", 2), ("f", 3)]).toOption.map
+      (fun gs => gs.map fun g => (g.1, g.2.map (·.base.2))) = some [("f", [1, 3]), ("g", [2])] := by decide
 
 /-- non-vacuity -/
 example : (wrapEnum ⟨.enum, "Kind", ["Dog", "Cat"]⟩).2 = "classdef Kind < uint32\n    enumeration\n        Dog(0)\n        Cat(1)\n    end\nend\n" := by decide
